@@ -622,6 +622,11 @@ func lexRegex(l *lexer) stateFn {
 	if n := l.next(); n != '/' {
 		return l.errorf(`unexpected "%c" expected "/"`, n)
 	}
+	if l.peek() == '/' {
+		// A comment between an operator and the regex
+		l.backup()
+		return lexComment
+	}
 	for {
 		switch r := l.next(); {
 		case r == '\\':
@@ -651,7 +656,7 @@ func lexComment(l *lexer) stateFn {
 			n := l.next()
 			for ; n != '\n' && isSpace(n); n = l.next() {
 			}
-			if n == '/' {
+			if n == '/' && l.peek() == '/' {
 				// We still have more comment lines
 				continue
 			}
